@@ -75,13 +75,13 @@ PUNCTP = [[ROOT_ATTACH, PVL], [ROOT_ATTACH, PSY], [ROOT_ATTACH, PSYR], [PRT], [R
 ALLOPS = [ROOT_ATTACH, NEGRA, SPLIT, RAISE, TOP, PVL, PRT, PSY, BIN, COL, UNC]
 
 MODELS = {
-    'C12': {'quick': [model(4, 4, programs=[[ROOT_ATTACH]])],
+    'C12': {'quick': [model(5, 4, programs=[[ROOT_ATTACH]])],
             'thorough': [model(5, 5, programs=[[ROOT_ATTACH], [ROOT_ATTACH, ROOT_ATTACH]]),
                          model(6, 4, programs=[[ROOT_ATTACH]])]},
     'C05': {'quick': [model(4, 3, toks=(PLAIN, TOK_HD), edges=('--', 'HD'), programs=CROSS)],
             'thorough': [model(5, 4, toks=(PLAIN, TOK_HD), edges=('--', 'HD'), programs=CROSS[:1]),
                          model(4, 4, MaxChain=2, toks=(PLAIN, TOK_HD), edges=('--', 'HD'), programs=CROSS)]},
-    'C13': {'quick': [model(4, 3, toks=(PLAIN, TOK_COMMA, TOK_QUOTE), programs=PUNCTP[:2] + PUNCTP[3:]),
+    'C13': {'quick': [model(4, 2, toks=(PLAIN, TOK_COMMA, TOK_QUOTE), programs=PUNCTP[:2] + PUNCTP[3:]),
                       model(3, 3, MaxChain=2, toks=(PLAIN, TOK_COMMA, TOK_QUOTE, TOK_REL), programs=PUNCTP)],
             'thorough': [model(5, 3, toks=(PLAIN, TOK_COMMA, TOK_QUOTE), programs=PUNCTP[:2] + PUNCTP[3:]),
                          model(4, 4, MaxChain=2, toks=(PLAIN, TOK_COMMA, TOK_QUOTE, TOK_REL), programs=PUNCTP)]},
@@ -97,8 +97,8 @@ MODELS = {
             'thorough': [model(5, 4, MaxChain=2, toks=(PLAIN, TOK_COMMA), programs=[[PDEL]] + [[op('delete_terminal', pos=i)] for i in (1, 2, 3, 4, 5)]),
                          model(4, 3, MaxChain=2, toks=(PLAIN, TOK_TR1, TOK_TR2, TOK_TR3), labels=('X', 'NP-1', 'S=2-1'), programs=[[o] for o in PTBS]),
                          model(3, 3, MaxChain=2, programs=[[o] for o in INS + SUB + FILT] + [[INS[3], SUB[5]], [SUB[2], INS[1]]])]},
-    'C04': {'quick': [model(3, 3, MaxChain=2, toks=(PLAIN, TOK_COMMA, TOK_QUOTE), ops=ALLOPS, MaxOps=2),
-                      model(4, 2, toks=(PLAIN, TOK_COMMA), edges=('--', 'HD'), ops=ALLOPS, MaxOps=2)],
+    'C04': {'quick': [model(3, 2, MaxChain=2, toks=(PLAIN, TOK_COMMA, TOK_QUOTE), ops=ALLOPS, MaxOps=2),
+                      model(4, 2, toks=(PLAIN, TOK_COMMA), ops=ALLOPS, MaxOps=2, NMin=4)],
             'thorough': [model(3, 3, MaxChain=2, toks=(PLAIN, TOK_COMMA, TOK_QUOTE), edges=('--', 'HD'), ops=ALLOPS, MaxOps=3),
                          model(4, 4, toks=(PLAIN, TOK_COMMA), ops=ALLOPS, MaxOps=2)]},
 }
